@@ -108,6 +108,9 @@ def make_models():
     from .plug_c17b import C17bNumpyModels  # C17: 2-D slice store a[r0:r1, c0:c1] = M (gated on `c17b_np = True` contracts)
 
     m.plugins.insert(0, C17bNumpyModels())
+    from .plug_c17b import C17bOpaqueValueModels  # C17: Class(list) as an opaque value (gated on `c17b_opaque_values` of the verified contract / own field type)
+
+    m.plugins.insert(0, C17bOpaqueValueModels())
     from .plug_c04r import C04ResultModels  # C04: result dataclasses, islice/next, single-expression nested functions, any(axis=1) (gated on `c04r = True` contracts)
 
     m.plugins.insert(0, C04ResultModels())
